@@ -131,8 +131,11 @@ def run(facts, R):
     R.check(set(calls) == {"read_aligned_typed_slice_ref", "read_aligned_typed_slice", "read_typed_slice"}, "borrow-then-own", rb.path, "three decoders", "decoders used: %s" % sorted(calls), rb.span)
     for nm, (i, t) in calls.items():
         fs = texts(facts_at(rb, rs, facts, i))
-        on_marker = any("first(body)" in x and "BEVE_ALIGNED_TYPED_ARRAY_MARKER" in x and x.endswith("is True") for x in fs)
-        off_marker = any("first(body)" in x and "BEVE_ALIGNED_TYPED_ARRAY_MARKER" in x and x.endswith("is False") for x in fs)
+        # the marker test: `body.first() == Some(&MARKER)` or `body.starts_with(&[MARKER])`
+        def _mk(x):
+            return ("first(body)" in x or "starts_with(body, array{0: BEVE_ALIGNED_TYPED_ARRAY_MARKER})" in x) and "BEVE_ALIGNED_TYPED_ARRAY_MARKER" in x
+        on_marker = any(_mk(x) and x.endswith("is True") for x in fs)
+        off_marker = any(_mk(x) and x.endswith("is False") for x in fs)
         ref_err = any("read_aligned_typed_slice_ref(body) is Err" in x for x in fs)
         if nm == "read_aligned_typed_slice_ref":
             ok = on_marker and not ref_err
@@ -143,7 +146,7 @@ def run(facts, R):
         R.check(ok and render_n(rs.op(t["args"][0])) == "arg1", "borrow-then-own", rb.path, "%s on the right edge" % nm,
                 "%s is reached under %s" % (nm, fs), t.get("span"), "; ".join(x[-60:] for x in fs))
     rows = value_rows(rb, rs, facts, 0)
-    kinds = sorted((("Borrowed" if "Borrowed" in v else "Owned" if "Owned" in v else "residual" if "from_residual" in v else "?") for g, v in rows))
+    kinds = sorted((("Borrowed" if "Borrowed" in v else "Owned" if "Owned" in v else "residual" if ("from_residual" in v or v.startswith("Result::Err{")) else "?") for g, v in rows))
     R.check(kinds.count("Borrowed") == 1 and kinds.count("Owned") == 2 and "?" not in kinds, "borrow-then-own", rb.path, "result rows", "rows: %s" % kinds, rb.span, str(kinds))
     for g, v in rows:
         if "Borrowed" in v:
@@ -159,6 +162,24 @@ def run(facts, R):
                     n_use += 1
                     R.check(t["callee"]["name"] in ("as_slice",), "borrow-then-own", b.path, "SliceInput used via as_slice", "SliceInput passed to %s" % t["callee"]["path"], t.get("span"))
     R.floor("borrow-then-own", n_use, 2, "uses of SliceInput values")
+
+    # ---------------- decoded-elements-come-from-the-reader: "a body of the wrong element type or format is rejected rather than
+    # reinterpreted" - what a bulk decoder returns as Ok is what beve's typed-array reader returned as Ok for that body, never a
+    # value made up on the side (an "empty slice" shortcut taken on a hand-rolled look at the first bytes)
+    n_dec = 0
+    for fn_ in ("message::Message::decode_typed_slice", "message::Message::decode_complex_slice", "server::decode_typed_slice_param",
+                "server::decode_typed_slice_param_view", "server::decode_typed_slice_ref_body"):
+        if not facts.has_body(fn_):
+            continue
+        db_ = facts.body(fn_)
+        for g_, v_ in value_rows(db_, Sym(db_), facts, 0):
+            if not v_.startswith("Result::Ok{") or "Result::Err{" in v_ or "create_error_response" in v_:
+                continue        # a rejection row: the reply is an error response, no slice is handed on
+            n_dec += 1
+            R.check("beve::read_" in v_ and ("as Continue).0" in v_ or "as Ok).0" in v_), "decoded-elements-come-from-the-reader", fn_, "Ok value is the reader's Ok value",
+                    "%s returns %s without it being the typed-array reader's result: some bodies are accepted as a slice the reader would have rejected" % (fn_.rsplit("::", 1)[-1], v_[:120]),
+                    db_.span, v_[:100])
+    R.floor("decoded-elements-come-from-the-reader", n_dec, 5, "Ok rows of the bulk decoders")
 
     # ---------------- decode-paths-agree: a bulk route is reached through the borrowing `handle_view` (TCP servers, WebSocket
     # inline) or the owned `handle` (middleware-wrapped routes, WebSocket off-reader).  "Each decoder reads the other encoder's
